@@ -1,5 +1,7 @@
-// C09 (inputs / configurations, single thread): text lengths around the limits, level/module filters,
-// file sink roll-over under a virtual wall clock.   usage: input_harness <len|filter|file> [workdir]
+// C09 (inputs / configurations / life-cycle histories, single logging thread): text lengths and alphabets around the limits,
+// degenerate arguments, level/module filters, enable/disable/re-enable histories on two sinks with different thresholds,
+// file sink roll-over / re-enable / destruction / options under a virtual wall clock, stdout sinks across changes of second.
+// usage: input_harness <len|filter|file|stdout|filterseq|lifecycle> [workdir|depth [part nparts]]
 #include "hist/hist.h"
 #include <tbox/base/log.h>
 #include <tbox/base/log_impl.h>
@@ -11,18 +13,35 @@
 #include <unistd.h>
 #include <sys/stat.h>
 #include <sys/time.h>
+#include <sys/syscall.h>
 #include <algorithm>
 #include <fstream>
+#include <memory>
 #include <sstream>
 static long long vsec = 1700000000;
 extern "C" int gettimeofday(struct timeval *tv, void *) { if (tv) { tv->tv_sec = vsec; tv->tv_usec = 42; } return 0; }
 extern "C" time_t time(time_t *t) { if (t) *t = vsec; return vsec; }
 using namespace tbox::log;
 
-struct Rec { int level; std::string module, func, file, text; int line; bool trunc; uint32_t len; };
-struct SyncRec : Sink { std::vector<Rec> recs; void onLogFrontEnd(const LogContent *c) override { recs.push_back(Rec{c->level, c->module_id, c->func_name ? c->func_name : "", c->file_name ? c->file_name : "", std::string(c->text_ptr ? c->text_ptr : "", c->text_len), c->line, c->text_trunc, c->text_len}); } };
+struct Rec { int level; std::string module, func, file, text; int line; bool trunc; uint32_t len; uint32_t sec, usec; long tid; };
+struct SyncRec : Sink { std::vector<Rec> recs; void onLogFrontEnd(const LogContent *c) override { recs.push_back(Rec{c->level, c->module_id ? c->module_id : "<null>", c->func_name ? c->func_name : "<null>", c->file_name ? c->file_name : "<null>", std::string(c->text_ptr ? c->text_ptr : "", c->text_len), c->line, c->text_trunc, c->text_len, c->timestamp.sec, c->timestamp.usec, c->thread_id}); } };
 struct AsyncRec : AsyncSink { std::string out; void endline() override { cache_.push_back('\n'); } void flush() override { out.append(cache_.data(), cache_.size()); cache_.clear(); } };
 static size_t N = 0, D = 0;
+static const long long BASE_SEC = 1700000000;
+static long my_tid() { return syscall(SYS_gettid); }
+static std::string ts_str(long long sec) { time_t t = sec; struct tm tm; localtime_r(&t, &tm); char b[32]; strftime(b, sizeof b, "%F %H:%M:%S", &tm); return b; }
+// the documented record head of the asynchronous / stdout sinks: "<level code> <date time>.<usec> <tid> <module> " for a call made at virtual second `sec`
+static std::string line_head(int level, long long sec, const char *module) { char b[192]; snprintf(b, sizeof b, "%c %s.%06u %ld %s ", LOG_LEVEL_LEVEL_CODE[level], ts_str(sec).c_str(), 42u, my_tid(), module); return b; }
+static std::string first_diff(const std::string &got, const std::string &want) {      // classify got vs want at line granularity
+  size_t a = 0, b = 0; int ln = 0;
+  while (a < got.size() || b < want.size()) { ln++;
+    size_t ea = got.find('\n', a), eb = want.find('\n', b);
+    std::string la = a < got.size() ? got.substr(a, ea == std::string::npos ? std::string::npos : ea - a + 1) : "", lb = b < want.size() ? want.substr(b, eb == std::string::npos ? std::string::npos : eb - b + 1) : "";
+    if (la != lb) { std::string kind = la.empty() ? "record-missing" : lb.empty() ? "unexpected-extra-record" : (got.find(lb, a) != std::string::npos && want.find(la, b) == std::string::npos) ? "unexpected-extra-record" : (want.find(la, b) != std::string::npos) ? "record-missing" : "record-altered";
+      return kind + " line" + std::to_string(ln) + " got=[" + la.substr(0, 90) + "] want=[" + lb.substr(0, 90) + "]"; }
+    a += la.size(); b += lb.size(); }
+  return "";
+}
 
 static int sweep_len() {
   for (size_t max : {1ul, 10ul, 2047ul, 2048ul, 2049ul, 4096ul}) {
@@ -30,47 +49,79 @@ static int sweep_len() {
     std::vector<size_t> lens; for (size_t l = 0; l <= 8; l++) lens.push_back(l); for (size_t l = 2046; l <= 2050; l++) lens.push_back(l);
     for (size_t l : {max - 1, max, max + 1, max + 7}) lens.push_back(l);
     std::sort(lens.begin(), lens.end()); lens.erase(std::unique(lens.begin(), lens.end()), lens.end());
-    for (size_t L : lens) for (int with_args = 0; with_args < 3; with_args++) {
-      std::string text(L, 'x'); for (size_t i = 0; i < L; i++) text[i] = (char)('a' + i % 26);
+    // alphabet 0 = letters; 1 = text made of printf conversions ("%s%d%%%n..."): whether it is the literal message (puts path)
+    // or the %s argument, the record must carry exactly these bytes - nothing may be interpreted a second time
+    for (size_t L : lens) for (int alpha = 0; alpha < 2; alpha++) for (int with_args = 0; with_args < 3; with_args++) {
+      static const char PCT[] = "%s%d%%%n%5c%ld";
+      std::string text(L, 'x'); for (size_t i = 0; i < L; i++) text[i] = alpha ? PCT[i % (sizeof PCT - 1)] : (char)('a' + i % 26);
+      if (with_args == 2 && L < 2) continue;
       SyncRec s; AsyncRec a; AsyncSink::Config cfg; cfg.buff_size = 64; cfg.buff_min_num = 1; cfg.buff_max_num = 3; cfg.interval = 100; a.setConfig(cfg);
       s.setLevel(LOG_LEVEL_TRACE); a.setLevel(LOG_LEVEL_TRACE); s.enable(); a.enable();
-      char desc[96]; snprintf(desc, sizeof desc, "max=%zu len=%zu mode=%s", max, L, with_args == 0 ? "puts" : with_args == 1 ? "printf-%s" : "printf-prefix+%s");
+      char desc[128]; snprintf(desc, sizeof desc, "max=%zu len=%zu alphabet=%s mode=%s", max, L, alpha ? "percent-conversions" : "letters", with_args == 0 ? "puts" : with_args == 1 ? "printf-%s" : "printf-prefix+%s");
       hx::set_current(desc);
       std::string want = text;
       if (with_args == 0) LogPrintfFunc("mod", "fn", "dir/f.cpp", 7, LOG_LEVEL_INFO, 0, text.c_str());
       else if (with_args == 1) LogPrintfFunc("mod", "fn", "dir/f.cpp", 7, LOG_LEVEL_INFO, 1, "%s", text.c_str());
-      else { if (L < 2) { s.disable(); a.disable(); continue; } LogPrintfFunc("mod", "fn", "dir/f.cpp", 7, LOG_LEVEL_INFO, 1, "%c%s", text[0], text.c_str() + 1); }
+      else LogPrintfFunc("mod", "fn", "dir/f.cpp", 7, LOG_LEVEL_INFO, 1, "%c%s", text[0], text.c_str() + 1);
       s.disable(); a.disable(); N++;
       size_t el = std::min(L, max); bool et = L > max;
       if (s.recs.size() != 1) { printf("@VIOL sig=len-sweep-record-count-%zu :: %s\n", s.recs.size(), desc); continue; }
       const Rec &r = s.recs[0];
-      if (r.len != el || r.text != want.substr(0, el)) printf("@VIOL sig=text-not-cut-to-exactly-the-maximum :: %s got_len=%u want_len=%zu\n", desc, r.len, el);
+      if (r.len != el || r.text != want.substr(0, el)) printf("@VIOL sig=text-not-cut-to-exactly-the-maximum%s :: %s got_len=%u want_len=%zu\n", alpha ? "-or-bytes-changed(percent-text)" : "", desc, r.len, el);
       else if (r.trunc != et) printf("@VIOL sig=truncation-flag-wrong :: %s flag=%d\n", desc, (int)r.trunc);
-      else if (r.module != "mod" || r.func != "fn" || r.file != "f.cpp" || r.line != 7 || r.level != LOG_LEVEL_INFO) printf("@VIOL sig=record-field-corrupted :: %s\n", desc);
-      // async sink: exactly one line, containing the cut text followed by the marker iff truncated
-      std::string exp_mid = " mod fn() " + (el ? want.substr(0, el) + " " : std::string()) + (et && el ? "(TRUNCATED) " : "") + "-- f.cpp:7\n";
-      size_t nl = std::count(a.out.begin(), a.out.end(), '\n');
-      if (nl != 1 || a.out.size() < exp_mid.size() || a.out.compare(a.out.size() - exp_mid.size(), exp_mid.size(), exp_mid) != 0) printf("@VIOL sig=async-sink-line-wrong(len-sweep) :: %s out=[%s]\n", desc, a.out.substr(0, 80).c_str());
+      else if (r.module != "mod" || r.func != "fn" || r.file != "f.cpp" || r.line != 7 || r.level != LOG_LEVEL_INFO || r.sec != (uint32_t)vsec || r.usec != 42 || r.tid != my_tid()) printf("@VIOL sig=record-field-corrupted :: %s\n", desc);
+      // async sink: exactly one WHOLE line: head (level code, time, thread id, module), function, the cut text, the marker iff truncated, file:line
+      std::string exp = line_head(LOG_LEVEL_INFO, vsec, "mod") + "fn() " + (el ? want.substr(0, el) + " " : std::string()) + (et && el ? "(TRUNCATED) " : "") + "-- f.cpp:7\n";
+      if (a.out != exp) printf("@VIOL sig=async-sink-line-wrong(len-sweep) :: %s %s\n", desc, first_diff(a.out, exp).c_str());
       if (N <= 2) printf("@SAMPLE %s => text_len=%u trunc=%d\n", desc, r.len, (int)r.trunc);
     }
   }
   LogSetMaxLength(100 << 10);
+  // degenerate arguments: no message at all (fmt == NULL), no module name, no function name, no file name, level outside 0..7.
+  // Reading: such a call is still ONE log call; the record it produces must be whole (every field a sink prints is readable and the
+  // fields that were given are intact). What an absent module is spelled as is not stated, so only "non-empty" is demanded; a level
+  // below 0 passes every threshold under any reading (exactly one record), a level above 7 may or may not pass threshold 7 (at most one).
+  struct Deg { const char *what, *mod, *fn, *file, *fmt; int level; int min_recs, max_recs; };
+  static const Deg DEG[] = {
+    {"fmt=NULL", "mod", "fn", "dir/f.cpp", nullptr, LOG_LEVEL_INFO, 1, 1}, {"module=NULL", nullptr, "fn", "dir/f.cpp", "t", LOG_LEVEL_INFO, 1, 1},
+    {"func=NULL", "mod", nullptr, "dir/f.cpp", "t", LOG_LEVEL_INFO, 1, 1}, {"file=NULL", "mod", "fn", nullptr, "t", LOG_LEVEL_INFO, 1, 1},
+    {"file-without-directory", "mod", "fn", "f.cpp", "t", LOG_LEVEL_INFO, 1, 1}, {"file-ends-with-slash", "mod", "fn", "dir/", "t", LOG_LEVEL_INFO, 1, 1},
+    {"level=-1", "mod", "fn", "dir/f.cpp", "t", -1, 1, 1}, {"level=-1000", "mod", "fn", "dir/f.cpp", "t", -1000, 1, 1},
+    {"level=8", "mod", "fn", "dir/f.cpp", "t", 8, 0, 1}, {"level=1000", "mod", "fn", "dir/f.cpp", "t", 1000, 0, 1} };
+  for (const Deg &d : DEG) for (int with_args = 0; with_args < 2; with_args++) {
+    SyncRec s; AsyncRec a; AsyncSink::Config cfg; cfg.buff_size = 64; cfg.buff_min_num = 1; cfg.buff_max_num = 3; cfg.interval = 100; a.setConfig(cfg);
+    s.setLevel(LOG_LEVEL_TRACE); a.setLevel(LOG_LEVEL_TRACE); s.enable(); a.enable();
+    char desc[128]; snprintf(desc, sizeof desc, "degenerate %s with_args=%d", d.what, with_args); hx::set_current(desc);
+    LogPrintfFunc(d.mod, d.fn, d.file, 7, d.level, with_args, d.fmt);
+    s.disable(); a.disable(); N++;
+    size_t nl = std::count(a.out.begin(), a.out.end(), '\n');
+    if (s.recs.size() < (size_t)d.min_recs || s.recs.size() > (size_t)d.max_recs || nl != s.recs.size()) { printf("@VIOL sig=degenerate-argument-call-record-count-wrong(%s) :: %s sync=%zu async=%zu\n", d.what, desc, s.recs.size(), nl); continue; }
+    if (s.recs.empty()) continue;
+    const Rec &r = s.recs[0]; std::string text = d.fmt ? d.fmt : "", file = !d.file ? "<null>" : !strcmp(d.file, "dir/") ? "" : "f.cpp";
+    bool ok = r.level >= 0 && r.level < LOG_LEVEL_MAX && (d.level < 0 || d.level >= LOG_LEVEL_MAX || r.level == d.level) && (d.mod ? r.module == d.mod : (!r.module.empty() && r.module != "<null>")) && r.func == (d.fn ? d.fn : "<null>") && r.file == file && r.line == 7 && r.text == text && !r.trunc && r.sec == (uint32_t)vsec && r.usec == 42 && r.tid == my_tid();
+    if (!ok) { printf("@VIOL sig=degenerate-argument-call-record-field-corrupted(%s) :: %s\n", d.what, desc); continue; }
+    std::string exp = line_head(r.level, vsec, r.module.c_str()) + (d.fn ? "fn() " : "") + (text.empty() ? "" : text + " ") + (d.file ? "-- " + file + ":7" : std::string()) + "\n";
+    if (a.out != exp) printf("@VIOL sig=async-sink-line-wrong(degenerate-%s) :: %s %s\n", d.what, desc, first_diff(a.out, exp).c_str());
+  }
   D = N; return 0;
 }
 
 static int sweep_filter() {
-  // default threshold g in 0..7, per-module threshold for "A" in {unset,0..7}, set-then-unset variant, log from module A and B at every level
-  for (int g = 0; g < LOG_LEVEL_MAX; g++) for (int pm = -1; pm < LOG_LEVEL_MAX; pm++) for (int unset = 0; unset < 2; unset++) for (int m = 0; m < 2; m++) for (int lv = 0; lv < LOG_LEVEL_MAX; lv++) {
+  // default threshold g in 0..7 (set with setLevel(g), or with setLevel("", g) in the variant `via_empty`), per-module threshold for "A" in
+  // {unset,0..7}, set-then-unset variant, log from module A and B at every level
+  for (int g = 0; g < LOG_LEVEL_MAX; g++) for (int pm = -1; pm < LOG_LEVEL_MAX; pm++) for (int unset = 0; unset < 2; unset++) for (int via_empty = 0; via_empty < 2; via_empty++) for (int m = 0; m < 2; m++) for (int lv = 0; lv < LOG_LEVEL_MAX; lv++) {
     if (unset && pm < 0) continue;
+    if (via_empty && !(pm < 0 || pm == 3)) continue;
     SyncRec s; AsyncRec a; AsyncSink::Config cfg; cfg.buff_size = 128; cfg.buff_min_num = 1; cfg.buff_max_num = 2; cfg.interval = 100; a.setConfig(cfg);
-    for (Sink *k : {(Sink *)&s, (Sink *)&a}) { k->setLevel(g); if (pm >= 0) k->setLevel("A", pm); if (unset) k->unsetLevel("A"); k->enable(); }
-    char desc[96]; snprintf(desc, sizeof desc, "default=%d module-A=%d%s from=%s level=%d", g, pm, unset ? "(then unset)" : "", m ? "B" : "A", lv); hx::set_current(desc);
+    for (Sink *k : {(Sink *)&s, (Sink *)&a}) { if (via_empty) { k->setLevel(7 - g); if (pm >= 0) k->setLevel("A", pm); k->setLevel("", g); } else { k->setLevel(g); if (pm >= 0) k->setLevel("A", pm); } if (unset) k->unsetLevel("A"); k->enable(); }
+    char desc[128]; snprintf(desc, sizeof desc, "default=%d%s module-A=%d%s from=%s level=%d", g, via_empty ? "(set through the empty module name)" : "", pm, unset ? "(then unset)" : "", m ? "B" : "A", lv); hx::set_current(desc);
     LogPrintfFunc(m ? "B" : "A", "fn", "f.cpp", 1, lv, 0, "t");
     s.disable(); a.disable(); N++;
     int thr = (m == 0 && pm >= 0 && !unset) ? pm : g; size_t want = lv <= thr ? 1 : 0;
-    size_t got_a = std::count(a.out.begin(), a.out.end(), '\n');
+    std::string exp = want ? line_head(lv, vsec, m ? "B" : "A") + "fn() t -- f.cpp:1\n" : std::string();
     if (s.recs.size() != want) printf("@VIOL sig=filter-sync-sink-delivered-%zu-expected-%zu :: %s\n", s.recs.size(), want, desc);
-    if (got_a != want) printf("@VIOL sig=filter-async-sink-delivered-%zu-expected-%zu :: %s\n", got_a, want, desc);
+    else if (want && (s.recs[0].level != lv || s.recs[0].module != (m ? "B" : "A") || s.recs[0].text != "t")) printf("@VIOL sig=filter-sync-sink-record-field-corrupted :: %s\n", desc);
+    if (a.out != exp) printf("@VIOL sig=filter-async-sink-delivered-%zu-expected-%zu :: %s %s\n", (size_t)std::count(a.out.begin(), a.out.end(), '\n'), want, desc, first_diff(a.out, exp).c_str());
     if (N % 400 == 1) printf("@SAMPLE %s => delivered=%zu\n", desc, s.recs.size());
   }
   D = N; return 0;
@@ -81,32 +132,60 @@ static std::vector<std::string> list_files(const std::string &dir) {     // in c
   auto key = [](const std::string &n) { size_t p = n.rfind(".log"); std::string base = n.substr(0, p); int post = 0; if (p + 4 < n.size()) post = atoi(n.c_str() + p + 5); return std::make_pair(base, post); };
   std::sort(v.begin(), v.end(), [&](const std::string &a, const std::string &b) { return key(a) < key(b); }); return v;
 }
+static void rm_dir(const std::string &dir) { DIR *d = opendir(dir.c_str()); if (d) { while (auto *e = readdir(d)) { std::string n = e->d_name; if (n != "." && n != "..") unlink((dir + "/" + n).c_str()); } closedir(d); } rmdir(dir.c_str()); }
+static std::string read_files(const std::string &dir, bool &split, size_t &files) {
+  std::string all; split = false; files = 0;
+  for (auto &f : list_files(dir)) { std::ifstream in(dir + "/" + f); std::stringstream ss; ss << in.rdbuf(); std::string c = ss.str(); files++; if (!c.empty() && c.back() != '\n') split = true; all += c; }
+  return all;
+}
 static int sweep_file(const std::string &work) {
-  // one record is "I 2023-.. .000042 <tid> mod fn() rec-<k>-pad -- f.cpp:<k>\n"; measure its size first
+  // one record is "I 2023-.. .000042 <tid> mod fn() rec-<k>-pad -- f.cpp:<k>\n"; measure its size first.
+  // Dimensions: size limit x record count x pacing x life-cycle {log,disable | log,disable,(log while disabled),enable,log,disable on the SAME object |
+  // log, then the sink is destroyed while still enabled} x pipe buffers {default 10 KiB | 64 bytes: a record spans several hand-overs, so a roll-over
+  // happens while the back-end holds a partial frame} x O_DSYNC {off,on} x spelling of the directory {dir, dir/, " dir "}.
+  // Oracle: every WHOLE line (level code, time of the call under the virtual clock, usec, thread id, module, function, text, file:line), files
+  // concatenated in creation order == the records logged while enabled, in order; no file ends inside a record.
   size_t recsz = 0;
   for (int pass = 0; pass < 2; pass++) {
     std::vector<size_t> limits = pass == 0 ? std::vector<size_t>{1u << 20} : std::vector<size_t>{1, recsz - 1, recsz, recsz + 1, 3 * recsz};
     bool quick = getenv("VERIF_TIER") && !strcmp(getenv("VERIF_TIER"), "quick");
-    for (size_t limit : limits) for (int nrec = 1; nrec <= 6; nrec++) for (int pace = 0; pace < 3; pace++) {
+    for (size_t limit : limits) for (int nrec = 1; nrec <= 6; nrec++) for (int pace = 0; pace < 3; pace++) for (int v = 0; v < 12; v++) {
       if (quick && pace > 0 && nrec > (pace == 1 ? 3 : 2)) continue;      // the paced (sleeping) cases are the slow ones      // pace: 0 = all in one burst, 1 = wait for the flush after each record, 2 = same + clock moves 1 s per record
-      std::string dir = work + "/f" + std::to_string(N); std::string cmd = "rm -rf " + dir; int rc = system(cmd.c_str()); (void)rc; mkdir(dir.c_str(), 0700);
-      vsec = 1700000000; std::string want;
-      { AsyncFileSink fs; fs.setFilePath(dir); fs.setFilePrefix("log"); fs.setFileMaxSize(limit); fs.setLevel(LOG_LEVEL_TRACE); fs.enable();
-        char desc[96]; snprintf(desc, sizeof desc, "limit=%zu records=%d pace=%d", limit, nrec, pace); hx::set_current(desc);
-        for (int k = 0; k < nrec; k++) { char t[32]; snprintf(t, sizeof t, "rec-%d-pad", k); LogPrintfFunc("mod", "fn", "f.cpp", k, LOG_LEVEL_INFO, 0, t); char ln[96]; snprintf(ln, sizeof ln, " mod fn() rec-%d-pad -- f.cpp:%d\n", k, k); want += ln;
-          if (pace) { usleep(pace == 1 ? 150000 : 150000); if (pace == 2) vsec++; } }
-        fs.disable();                      // everything logged before must be on disk now
-        std::string all; bool split = false; size_t files = 0;
-        for (auto &f : list_files(dir)) { std::ifstream in(dir + "/" + f); std::stringstream ss; ss << in.rdbuf(); std::string c = ss.str(); files++; if (!c.empty() && c.back() != '\n') split = true; all += c; }
-        // compare the record tails (the head has time/tid)
-        std::string tails; { size_t a = 0; while (a < all.size()) { size_t b = all.find('\n', a); if (b == std::string::npos) b = all.size() - 1; std::string l = all.substr(a, b - a + 1); size_t p = l.find(" mod fn() "); tails += p == std::string::npos ? "?" + l : l.substr(p); a = b + 1; } }
-        N++;
-        if (pass == 0 && nrec == 1 && pace == 0) recsz = all.size();
-        if (split) printf("@VIOL sig=file-sink-record-split-across-files :: %s\n", desc);
-        else if (tails != want) printf("@VIOL sig=file-sink-records-lost-duplicated-or-reordered-on-disk-after-disable :: %s files=%zu got=[%s]\n", desc, files, tails.substr(0, 120).c_str());
-        if (N % 25 == 1) printf("@SAMPLE %s => %zu files, %zu bytes\n", desc, files, all.size());
-      }
-      cmd = "rm -rf " + dir; rc = system(cmd.c_str());
+      const int life = v % 3, small = (v / 3) % 2, sync = v / 6;
+      if (pace > 0 && (small || sync || (life && (quick || nrec > 3)))) continue;        // the option cross runs on the burst shape; paced runs keep default options
+      if (pass == 0 && recsz == 0 && v > 0) continue;
+      const int sp = (int)(N % 3);
+      std::string dir = work + "/f" + std::to_string(N); rm_dir(dir); mkdir(dir.c_str(), 0700);
+      vsec = BASE_SEC; std::string want;
+      char desc[192]; snprintf(desc, sizeof desc, "limit=%zu records=%d pace=%d life=%s buffers=%s dsync=%d path-spelling=%s", limit, nrec, pace, life == 0 ? "log,disable" : life == 1 ? "log,disable,enable,log,disable" : "log,destroyed-while-enabled", small ? "64B" : "default", sync, sp == 0 ? "dir" : sp == 1 ? "dir/" : "' dir '"); hx::set_current(desc);
+      std::unique_ptr<AsyncFileSink> fs(new AsyncFileSink);
+      fs->setFilePath(sp == 0 ? dir : sp == 1 ? dir + "/" : "  " + dir + " "); fs->setFilePrefix(sp == 2 ? " log " : "log"); fs->setFileMaxSize(limit); fs->setLevel(LOG_LEVEL_TRACE);
+      if (small) { AsyncSink::Config cfg; cfg.buff_size = 64; cfg.buff_min_num = 1; cfg.buff_max_num = 3; cfg.interval = 100; fs->setConfig(cfg); }
+      if (sync) fs->setFileSyncEnable(true);
+      fs->enable();
+      bool split = false; size_t files = 0; std::string all; const char *stage = ""; bool bad = false;
+      auto log_one = [&](int k, bool expected) { char t[32]; snprintf(t, sizeof t, "rec-%d-pad", k); static char tb[8][32]; char *st = tb[k & 7]; strcpy(st, t);
+        LogPrintfFunc("mod", "fn", "f.cpp", k, LOG_LEVEL_INFO, 0, st);
+        if (expected) want += line_head(LOG_LEVEL_INFO, vsec, "mod") + "fn() " + t + " -- f.cpp:" + std::to_string(k) + "\n";
+        if (pace) { usleep(150000); if (pace == 2) vsec++; } };
+      const int first = life == 1 ? (nrec + 1) / 2 : nrec;
+      for (int k = 0; k < first; k++) log_one(k, true);
+      if (life == 1) {
+        fs->disable();                   // everything logged before must be on disk now
+        all = read_files(dir, split, files);
+        if (split || all != want) { bad = true; stage = "(first-enabled-period-of-a-sink-that-is-re-enabled-later)"; }
+        else { { int p = pace; pace = 0; log_one(7, false); pace = p; }          // while disabled: must never reach the disk, not even after the re-enable
+          if (pace == 2) vsec++;
+          fs->enable(); for (int k = first; k < nrec; k++) log_one(k, true); fs->disable(); stage = "(after-disable,enable-of-the-same-sink)"; }
+      } else if (life == 0) fs->disable();                      // everything logged before must be on disk now
+      else { fs.reset(); stage = "(sink-destroyed-while-enabled)"; }
+      if (!bad) all = read_files(dir, split, files);
+      N++;
+      if (pass == 0 && nrec == 1 && pace == 0 && v == 0) recsz = all.size();
+      if (split) printf("@VIOL sig=file-sink-record-split-across-files%s :: %s\n", stage, desc);
+      else if (all != want) printf("@VIOL sig=file-sink-records-lost-duplicated-or-reordered-on-disk-after-disable%s :: %s files=%zu %s\n", stage, desc, files, first_diff(all, want).c_str());
+      if (N % 60 == 1) printf("@SAMPLE %s => %zu files, %zu bytes\n", desc, files, all.size());
+      fs.reset(); rm_dir(dir);
     }
   }
   D = N; return 0;
@@ -133,10 +212,10 @@ static int sweep_filterseq(size_t depth) {
         case F_LOG: { size_t before = s.recs.size(); char t[16]; snprintf(t, sizeof t, "r%zu", want_total); LogPrintfFunc(MOD[o.b], "fn", "f.cpp", 1, o.a, 0, t);
           int thr = mod[o.b] >= 0 ? mod[o.b] : def; bool want = o.a <= thr;
           if (s.recs.size() - before != (want ? 1u : 0u)) viol = std::string(want ? "record-that-passes-the-threshold-not-delivered" : "record-below-the-threshold-delivered") + " (sync sink) threshold=" + std::to_string(thr) + " level=" + std::to_string(o.a);
-          if (want) { want_async += std::string(" ") + MOD[o.b] + " fn() " + t + " -- f.cpp:1\n"; want_total++; } } break; } }
+          if (want) { const Rec &r = s.recs.back(); if (r.level != o.a || r.module != MOD[o.b] || r.text != t || r.func != "fn" || r.file != "f.cpp" || r.line != 1) viol = "record-field-corrupted (sync sink, filter histories)";
+            want_async += line_head(o.a, vsec, MOD[o.b]) + "fn() " + t + " -- f.cpp:1\n"; want_total++; } } break; } }
     s.disable(); if (with_async) a.disable();
-    if (viol.empty() && with_async) { std::string tails; size_t p0 = 0; while (p0 < a.out.size()) { size_t e = a.out.find('\n', p0); if (e == std::string::npos) e = a.out.size() - 1; std::string l = a.out.substr(p0, e - p0 + 1); size_t q = l.find(" fn() "); tails += q == std::string::npos ? "?" + l : l.substr(q >= 2 ? q - 2 : 0); p0 = e + 1; }
-      if (tails != want_async) viol = "async-sink-delivered-a-different-record-sequence-than-the-thresholds-allow got=[" + tails.substr(0, 80) + "] want=[" + want_async.substr(0, 80) + "]"; }
+    if (viol.empty() && with_async && a.out != want_async) viol = "async-sink-delivered-a-different-record-sequence-than-the-thresholds-allow " + first_diff(a.out, want_async);   // whole lines, head included
     // the most recent log call is part of the state: an implementation may remember it (e.g. a per-module threshold cache)
     // Hidden implementation state (e.g. a threshold cache) may depend on recent calls, so the last three ops are part of the
     // state key: two histories are merged only if they agree on the thresholds in force AND on their last three operations.
